@@ -407,7 +407,8 @@ def check_simultaneous(role, hist, pe, ue, delta):
     steps = env.steps[len(hist) + 1:]
     wire = [w[0] for st in steps for w in e2.summarize_wire(st['wire'])]
     inds = [x for st in steps for x in st['inds']]
-    obs = (wire, [x[0] for x in inds], (fin['state'] + 1, fin['timer'], fin['sock']))
+    last = env.steps[-1] if env.steps and 'state' in env.steps[-1] else {'state': fin['state'], 'timer': fin['timer'], 'sock': fin['sock']}
+    obs = (wire, [x[0] for x in inds], (last['state'] + 1, last['timer'], last['sock']))
     match = False
     for outs, m in exps:
         ew = [o[5:].replace('(provider)', '') for o in outs if o.startswith('send:')]
